@@ -224,6 +224,9 @@ def b_c02(tier):
             except Exception as e:
                 continue       # a history the API refuses is not a history
             live = sorted(x.id for x in getattr(b.groups["grp"], kind))
+            live_a = sorted(x.id for x in cont_a); live_b = sorted(x.id for x in cont_b)
+            check(live == live_a == live_b, "handles to the same entity show different link lists", container=kind, order=list(order),
+                  fresh=live, handle_a=live_a, handle_b=live_b)
             f.close()
             g = nixio.File.open(path, nixio.FileMode.ReadOnly)
             stored = sorted(x.id for x in getattr(g.blocks[0].groups["grp"], kind)); g.close()
@@ -573,8 +576,25 @@ def b_c05(tier):
     check([float(x) for x in rd.ticks] == [2.0, 4.0], "a range dimension linked to a frame column does not report that column")
     rd.link_data_frame(df2, 0)
     check([float(x) for x in rd.ticks] == [5.0, 7.0], "re-linking to another frame still reports the old target", ticks=list(rd.ticks))
+    # a feature's data: refused assignments (an entity of another block, of either kind) leave the link AND its kind as they were
+    fdf = b1.create_data_frame("df1", "t", col_dict={"c0": float}, data=[(1.0,)])
+    for tg in (t, mt):
+        ft = tg.features[0]; cur = ft.data
+        for foreign_obj in (b1.data_arrays["ints"], fdf, b1.data_arrays[cur.name] if cur.name in b1.data_arrays else b1.data_arrays["pos"]):
+            try:
+                ft.data = foreign_obj
+                check(False, "a feature accepted data of another block", tag=tg.name, data=foreign_obj.name)
+            except Exception:
+                now = tg.features[0].data
+                check(type(now) is type(cur) and now.id == cur.id and now.name == cur.name, "a refused feature.data assignment changed the feature",
+                      tag=tg.name, refused=type(foreign_obj).__name__, before=[type(cur).__name__, cur.name], after=[type(now).__name__, _safe(lambda: now.name)])
+        ft2 = tg.create_feature(df1, nixio.LinkType.Untagged)
+        check(type(ft2.data).__name__ == "DataFrame" and ft2.data.id == df1.id, "a feature linking a data frame does not hand back that frame", tag=tg.name)
+        ft2.data = b0.data_arrays["ints"]
+        check(type(ft2.data).__name__ == "DataArray" and ft2.data.id == b0.data_arrays["ints"].id, "re-pointing a feature to an array of its block failed",
+              tag=tg.name)
     f.close()
-    return "one sample file: every link kind (group lists, references, sources, features, dimension links to arrays / frame columns): change through every path read through every path, foreign / wrong-kind appends, all 4 vector positions of a 2-D link, replacement and re-linking, invalid indices"
+    return "one sample file: every link kind (group lists, references, sources, features, dimension links to arrays / frame columns): change through every path read through every path, foreign / wrong-kind appends, all 4 vector positions of a 2-D link, replacement and re-linking, invalid indices; accepted / refused feature data of both kinds"
 
 
 def b_c04(tier):
